@@ -532,10 +532,17 @@ def attribute_and_minimise(v: dict, plans_by_life: dict, mini: Minimiser) -> dic
             doc["kind"] = "sympy-rng" if sens == "rng" else "rerun-differs"
             doc["lives"] = pair
             return doc
-    # 2. hash key: fresh single-observation lives under the two hash keys, SAME sympy seed
-    fb = dict(fb, sympy_seed=fa["sympy_seed"])
-    ra, rb = mini.run([fa, fb])
-    da, db = digest_of(ra, key), digest_of(rb, key)
+    # 2. hash key: both fresh families (8 runs each under different sympy seeds) were
+    #    internally constant; the verdict is hash-key only if, in addition, the life under
+    #    hash key b and sympy seed a agrees with its own family and the two constants differ
+    fb_same = dict(fb, sympy_seed=fa["sympy_seed"])
+    ra, rb, rb0 = mini.run([fa, fb_same, fb])
+    da, db, db0 = digest_of(ra, key), digest_of(rb, key), digest_of(rb0, key)
+    if db is not None and db0 is not None and db != db0:
+        doc["kind"] = "sympy-rng"  # same hash key, same history, only the sympy seed differs
+        doc["lives"] = [dict(fb, life=0), dict(fb_same, life=1)]
+        return doc
+    fb = fb_same
     if da is not None and db is not None and da != db:
         doc["kind"] = "hash-key"
         lives = [fa, fb]
@@ -872,18 +879,25 @@ def main(tier: str, workers: int = 16) -> int:
             seen_kinds.add(ck[0])
             order.append(ck)
     order += [ck for ck in sorted(classes) if ck not in order]
+    model_kind: dict = {}  # model sha -> kind of the first class attributed for that model
+    n_real = 0           # classes that turned out NOT to be the known sympy-rng effect
     for n_ck, ck in enumerate(order):
         v = classes[ck][0]
         mini.new_class()
         try:
-            mini.frozen = mini.trials >= mini.max_trials or n_ck >= cfg.get("max_min_classes", 3)
-            if n_ck >= cfg.get("max_attr_classes", 12):
-                # far more violating classes than an intact tree ever shows: report the rest
-                # as they are (two complete witness lives = an exact replay), unclassified
+            mini.frozen = mini.trials >= mini.max_trials or n_real >= cfg.get("max_min_classes", 3)
+            mk = ck[1]
+            if model_kind.get(mk) not in (None, "sympy-rng") or n_real >= cfg.get("max_attr_classes", 12):
+                # this model already has an attributed real violation (or the tree shows far
+                # more real violations than we need to explain): report as it is - the two
+                # complete witness lives are an exact replay
                 doc = {"property": "C09", "key": v["key"], "op_kind": v["op_kind"], "model": v["model"], "kind": "unclassified",
                        "lives": [dict(plans_by_life[w["life"]]) for w in v["witnesses"]]}
             else:
                 doc = attribute_and_minimise(v, plans_by_life, mini)
+                model_kind.setdefault(mk, doc["kind"])
+            if doc["kind"] != "sympy-rng":
+                n_real += 1
         except core.HarnessError as e:
             print("HARNESS-ERROR during minimisation: %s" % e)
             return core.EXIT_HARNESS
